@@ -66,6 +66,10 @@ Definition d_c08 (op : string) (a : val) : option val :=
       | Some sz, Some res =>
           Some (v_outcome (fun l => VL (map v_scale l)) (gen_scales sz res target ms))
       | _, _ => Some bad end
+  | "keys_guard", VL [sz; res; VZ target; VZ ms] =>
+      match get_t3 sz, get_fl3 res with
+      | Some sz, Some res => Some (vbool (keys_guard sz res target ms))
+      | _, _ => Some bad end
   | "gen_delays", VL [res] =>
       match get_fl3 res with
       | Some res => Some (v_outcome v_t3 (gen_delays res))
